@@ -299,6 +299,192 @@ def _legacy_anyindex_case(n_in, k):
     return contract('bitcoinlib.transactions.Transaction.raw', case=name, props=('C01',))(type(name, (), d))
 
 
+# --- any NUMBER of inputs and outputs: the loops of Transaction.raw under inductive invariants ------------------------------------
+from pyvc.api import Position, fold
+from bitcoinlib.transactions import Output as _Output
+
+_InElemLegacy = RecordOf(Input, prev_txid=Bytes(32), output_n=Bytes(4), sequence=Int(0, 2 ** 32 - 1), value=Int(0, MAX_MONEY),
+                         script_type=Const('sig_pubkey'), witness_type=Const('legacy'), redeemscript=Bytes(max=10000),
+                         locking_script=Bytes(max=10000, ne=b'\x00'), witnesses=Const([]), unlocking_script=Bytes(max=10000),
+                         index_n=Position())
+_OutElem = RecordOf(_Output, value=Int(0, MAX_MONEY), lock_script=Bytes(max=10000, ne=b'\x00'))
+_TxAnyCount = RecordOf(Transaction, version=Bytes(4), locktime=Int(0, 2 ** 32 - 1), witness_type=Const('legacy'), size=Const(None),
+                       inputs=ListOf(_InElemLegacy), outputs=ListOf(_OutElem))
+
+
+def _raw_in_fold(self, sign_id, upto):
+    """the input part of Transaction.raw after `upto` inputs - the SAME step functions the specifications use (spec/wire.py, spec/sighash.py):
+    whole-transaction serialisation when sign_id is None, else the legacy signature-hash form (script code = redeem script for P2SH multisig
+    inputs, else the locking script)"""
+    if sign_id is None:
+        return fold(wire.tx_in_step, b'', self.inputs, upto, key='tx-in')
+    code = sighash.code_redeem if _elem_script_type(self) == 'p2sh_multisig' else sighash.code_locking
+    return fold(sighash.in_step_legacy(sign_id, wire.ser_string, code), b'', self.inputs, upto, key='legacy-in')
+
+
+def _elem_script_type(self):
+    return self.inputs.elem.fields['script_type'].v if not isinstance(self.inputs, list) else (self.inputs[0].script_type if self.inputs else 'sig_pubkey')
+
+
+def _raw_head(self, sign_id):
+    return self.version[::-1] + wire.compact_size(len(self.inputs))
+
+
+@loop('bitcoinlib.transactions.Transaction.raw', 0,
+      defines={'r': lambda self, sign_id, k: _raw_head(self, sign_id) + _raw_in_fold(self, sign_id, k)})
+def raw_inputs_inv(self, k):
+    """after k inputs r is the version, the input count and the serialisation of the first k inputs"""
+    return 0 <= k and k <= len(self.inputs)
+
+
+@loop('bitcoinlib.transactions.Transaction.raw', 1,
+      defines={'r': lambda self, sign_id, k: (_raw_head(self, sign_id) + _raw_in_fold(self, sign_id, len(self.inputs))
+                                             + wire.compact_size(len(self.outputs)) + fold(sighash.out_step(wire.ser_string), b'', self.outputs, k, key='tx-out'))})
+def raw_outputs_inv(self, k):
+    return 0 <= k and k <= len(self.outputs)
+
+
+@contract('bitcoinlib.transactions.Transaction.raw', case='legacy-any-count', props=('C01',))
+class raw_legacy_any_count:
+    """legacy SIGHASH_ALL preimage for a transaction with ANY number of inputs and outputs (loop invariants, no unrolling), P2PKH-style
+    inputs, every signed index.  Precondition: no script is the single byte 00 (that case is the pinned finding F-varstr-00 and is
+    covered, with its pin, by the per-count cases)."""
+    params = {'self': _TxAnyCount, 'sign_id': Int(0, 2 ** 32 - 1)}
+    kwargs = {'hash_type': 1, 'witness_type': 'legacy'}
+
+    def requires(self, sign_id):
+        return sign_id < len(self.inputs) and len(self.inputs) < 2 ** 32 and len(self.outputs) < 2 ** 32
+
+    def result_is(self, sign_id):
+        return sighash.legacy_all_preimage_rec(int.from_bytes(self.version, 'big'), self.inputs, self.outputs, self.locktime, sign_id)
+
+    def prepare(self, sign_id):
+        return {'self': _real_tx(self)}
+
+    def sample(rng):
+        from pyvc.fuzz import sample as _s
+        n_in = rng.choice([1, 1, 2, 3, 5, 8, 13])
+        tx = _s(_TxAnyCount, rng)
+        tx.fields['inputs'] = [_s(_InElemLegacy, rng) for _ in range(n_in)]
+        tx.fields['outputs'] = [_s(_OutElem, rng) for _ in range(rng.choice([0, 1, 2, 3, 7]))]
+        return {'self': tx, 'sign_id': rng.randrange(n_in)}
+
+
+_InElemLegacyMs = RecordOf(Input, prev_txid=Bytes(32), output_n=Bytes(4), sequence=Int(0, 2 ** 32 - 1), value=Int(0, MAX_MONEY),
+                           script_type=Const('p2sh_multisig'), witness_type=Const('legacy'), redeemscript=Bytes(max=10000, ne=b'\x00'),
+                           locking_script=Bytes(max=10000), witnesses=Const([]), unlocking_script=Bytes(max=10000), index_n=Position())
+_TxAnyCountMs = RecordOf(Transaction, version=Bytes(4), locktime=Int(0, 2 ** 32 - 1), witness_type=Const('legacy'), size=Const(None),
+                         inputs=ListOf(_InElemLegacyMs), outputs=ListOf(_OutElem))
+
+
+@contract('bitcoinlib.transactions.Transaction.raw', case='legacy-multisig-any-count', props=('C01',))
+class raw_legacy_ms_any_count:
+    """as legacy-any-count, for P2SH multisig inputs: the script code at the signed input is its redeem script"""
+    params = {'self': _TxAnyCountMs, 'sign_id': Int(0, 2 ** 32 - 1)}
+    kwargs = {'hash_type': 1, 'witness_type': 'legacy'}
+
+    def requires(self, sign_id):
+        return sign_id < len(self.inputs) and len(self.inputs) < 2 ** 32 and len(self.outputs) < 2 ** 32
+
+    def result_is(self, sign_id):
+        return sighash.legacy_all_preimage_rec(int.from_bytes(self.version, 'big'), self.inputs, self.outputs, self.locktime, sign_id,
+                                               code=sighash.code_redeem)
+
+    def prepare(self, sign_id):
+        return {'self': _real_tx(self)}
+
+    def sample(rng):
+        from pyvc.fuzz import sample as _s
+        n_in = rng.choice([1, 1, 2, 3, 5, 8])
+        tx = _s(_TxAnyCountMs, rng)
+        tx.fields['inputs'] = [_s(_InElemLegacyMs, rng) for _ in range(n_in)]
+        tx.fields['outputs'] = [_s(_OutElem, rng) for _ in range(rng.choice([0, 1, 2, 3, 7]))]
+        return {'self': tx, 'sign_id': rng.randrange(n_in)}
+
+
+_InElemFull = RecordOf(Input, prev_txid=Bytes(32), output_n=Bytes(4), sequence=Int(0, 2 ** 32 - 1), value=Int(0, MAX_MONEY),
+                       script_type=Const('sig_pubkey'), witness_type=Const('legacy'), redeemscript=Bytes(max=10000),
+                       locking_script=Bytes(max=10000), witnesses=Const([]), unlocking_script=Bytes(max=10000, ne=b'\x00'), index_n=Position())
+_TxAnyCountFull = RecordOf(Transaction, version=Bytes(4), locktime=Int(0, 2 ** 32 - 1), witness_type=Const('legacy'), size=Const(1),
+                           inputs=ListOf(_InElemFull), outputs=ListOf(_OutElem))
+
+
+@contract('bitcoinlib.transactions.Transaction.raw', case='full-legacy-any-count', props=('C06',))
+class raw_full_any_count:
+    """Transaction.raw() of a legacy (non-witness) transaction with ANY number of inputs and outputs is the wire format: version, input count,
+    inputs (outpoint, var_str unlocking script, sequence), output count, outputs (value, var_str script), lock time.  Loop invariants, no
+    unrolling.  Preconditions: no script is the single byte 00 (pinned finding F-varstr-00, covered with its pin by the per-count cases); the
+    cached size is already set (the size side effect of raw() is not part of this case)."""
+    params = {'self': _TxAnyCountFull}
+    kwargs = {'sign_id': None, 'hash_type': 1, 'witness_type': None}
+
+    def requires(self):
+        return len(self.inputs) < 2 ** 32 and len(self.outputs) < 2 ** 32
+
+    def result_is(self):
+        return wire.ser_tx_rec(int.from_bytes(self.version, 'big'), self.inputs, self.outputs, self.locktime)
+
+    def prepare(self):
+        t = _real_tx(self)
+        for k, x in enumerate(self.fields['inputs']):
+            t.inputs[k].unlocking_script = x.fields['unlocking_script']
+        t.size = 1
+        return {'self': t}
+
+    def sample(rng):
+        from pyvc.fuzz import sample as _s
+        tx = _s(_TxAnyCountFull, rng)
+        tx.fields['inputs'] = [_s(_InElemFull, rng) for _ in range(rng.choice([0, 1, 2, 3, 5, 9]))]
+        tx.fields['outputs'] = [_s(_OutElem, rng) for _ in range(rng.choice([0, 1, 2, 3, 7]))]
+        return {'self': tx}
+
+
+_InElemSegwit = RecordOf(Input, prev_txid=Bytes(32), output_n=Bytes(4), sequence=Int(0, 2 ** 32 - 1), value=Int(1, MAX_MONEY),
+                         script_type=Const('sig_pubkey'), witness_type=Const('segwit'), redeemscript=Bytes(max=10000, ne=b'\x00', min=1),
+                         locking_script=Bytes(max=10000), witnesses=Const([]), unlocking_script=Const(b''), index_n=Position())
+_TxAnyCountSegwit = RecordOf(Transaction, version=Bytes(4), locktime=Int(0, 2 ** 32 - 1), witness_type=Const('segwit'),
+                             inputs=ListOf(_InElemSegwit), outputs=ListOf(_OutElem))
+
+
+@loop('bitcoinlib.transactions.Transaction.signature_segwit', 0,
+      defines={'prevouts_serialized': lambda self, k: fold(sighash.prevouts_step, b'', self.inputs, k, key='bip143-prevouts'),
+               'sequence_serialized': lambda self, k: fold(sighash.sequences_step, b'', self.inputs, k, key='bip143-sequences')})
+def segwit_inputs_inv(self, k):
+    """after k inputs the two accumulators are the concatenated outpoints / sequences of the first k inputs"""
+    return 0 <= k and k <= len(self.inputs)
+
+
+@loop('bitcoinlib.transactions.Transaction.signature_segwit', 1,
+      defines={'outputs_serialized': lambda self, k: fold(sighash.out_step(wire.ser_string), b'', self.outputs, k, key='tx-out')})
+def segwit_outputs_inv(self, k):
+    return 0 <= k and k <= len(self.outputs)
+
+
+@contract('bitcoinlib.transactions.Transaction.signature_segwit', case='any-count', props=('C01',))
+class segwit_any_count:
+    """BIP143 preimage for a transaction with ANY number of inputs and outputs (loop invariants, no unrolling), every hash type byte, every
+    signed index.  Preconditions as in the per-count cases (script code non-empty and not the single byte 00, input value > 0) plus: no
+    output script is the single byte 00 (pinned finding F-varstr-00, covered with its pin by the per-count cases)."""
+    params = {'self': _TxAnyCountSegwit, 'sign_id': Int(0, 2 ** 32 - 1), 'hash_type': Int(0, 255)}
+
+    def requires(self, sign_id, hash_type):
+        return sign_id < len(self.inputs) and len(self.inputs) < 2 ** 32 and len(self.outputs) < 2 ** 32
+
+    def result_is(self, sign_id, hash_type):
+        return sighash.bip143_preimage_rec(int.from_bytes(self.version, 'big'), self.inputs, self.outputs, self.locktime, sign_id, hash_type)
+
+    def prepare(self, sign_id, hash_type):
+        return {'self': _real_tx(self)}
+
+    def sample(rng):
+        from pyvc.fuzz import sample as _s
+        n_in = rng.choice([1, 1, 2, 3, 5, 8, 13])
+        tx = _s(_TxAnyCountSegwit, rng)
+        tx.fields['inputs'] = [_s(_InElemSegwit, rng) for _ in range(n_in)]
+        tx.fields['outputs'] = [_s(_OutElem, rng) for _ in range(rng.choice([0, 1, 2, 3, 7, 14]))]
+        return {'self': tx, 'sign_id': rng.randrange(n_in), 'hash_type': rng.choice([1, 1, 1, 2, 3, 0x81, 0x82, 0x83, rng.randrange(256)])}
+
+
 LEGACY_ANYINDEX_CASES = [_legacy_anyindex_case(a, c)._contract.key for a in (1, 2, 3) for c in range(a)]
 
 
